@@ -40,6 +40,7 @@ class Names:
 
     def __init__(self):
         self.m = {}
+        self.t = {}
 
     def name(self, hexstr):
         if hexstr not in self.m:
@@ -56,9 +57,17 @@ class Names:
         parts = [self.name(w) if len(w) == 64 else vlib.coq_literal_bytes(bytes.fromhex(w)) for w in words]
         return '(concat %s)' % coq_list(parts)
 
+    def term(self, typ, text):
+        """a (large) term defined once per file"""
+        key = (typ, text)
+        if key not in self.t:
+            self.t[key] = 't%d' % len(self.t)
+        return self.t[key]
+
     def defs(self):
-        return ''.join('Definition %s : bytes := %s.\n' % (n, vlib.coq_literal_bytes(bytes.fromhex(h)))
-                       for h, n in self.m.items())
+        return (''.join('Definition %s : bytes := %s.\n' % (n, vlib.coq_literal_bytes(bytes.fromhex(h)))
+                        for h, n in self.m.items())
+                + ''.join('Definition %s : %s := %s.\n' % (n, typ, text) for (typ, text), n in self.t.items()))
 
 
 def nat(n):
@@ -111,6 +120,7 @@ def dkey(nm, k):
 
 
 def snap_term(nm, s):
+    """the observed state; identical states (failed transactions, consecutive steps) are defined once per file"""
     bal = coq_list(['(%s, %s)' % (nm.b(a), coq_Z(v)) for a, v in (s.get('bal') or [])])
     dels = coq_list(['(%s, %s)' % (dkey(nm, kv['k']), coq_Z(kv['v'][0])) for kv in (s.get('dels') or [])])
     ubds = coq_list(['(%s, %s)' % (dkey(nm, kv['k']), coq_list([coq_Z(x) for x in (kv['v'] or [])])) for kv in (s.get('ubds') or [])])
@@ -127,10 +137,10 @@ def snap_term(nm, s):
     props = coq_list(['(%s, %s)' % (coq_N(p), coq_bool(st == '2')) for p, st in (s.get('props') or [])])
     rew = coq_list(['(%s, %s)' % (dkey(nm, kv['k']), coq_Z(kv['v'][0])) for kv in (s.get('rew') or [])])
     ctr = coq_list(['(%s, %s)' % (nm.b(a), coq_N(v)) for a, v in (s.get('ctr') or [])])
-    return ('{| o_n := {| n_bal := %s; n_supply := %s; n_vtok := %s; n_dels := %s; n_ubds := %s; n_reds := %s; n_votes := %s; '
-            'n_props := %s; n_rew := %s |}; o_ctr := %s |}') % (
-        bal, coq_Z(s['supply']), coq_list([coq_Z(x) for x in s['vtok']]), dels, ubds, coq_list(reds), coq_list(votes),
-        props, rew, ctr)
+    core = ('{| n_bal := %s; n_supply := %s; n_vtok := %s; n_dels := %s; n_ubds := %s; n_reds := %s; n_votes := %s; '
+            'n_props := %s; n_rew := [] |}') % (bal, coq_Z(s['supply']), coq_list([coq_Z(x) for x in s['vtok']]), dels, ubds,
+                                                  coq_list(reds), coq_list(votes), props)
+    return '{| o_n := with_rew %s %s; o_ctr := %s |}' % (nm.term('nstate', core), rew, nm.term('list (bytes * N)', ctr))
 
 
 def fn_term(nm, n):
